@@ -840,7 +840,7 @@ func init() {
 	mc.Register(&mc.Prop{
 		ID:    "C09",
 		Level: "exploration",
-		Rule: "Command line: goalign sw on 8 pairs (nucleotide, protein, mixed case) with every subset of --match, --mismatch, --gap-open, --gap-extend given (4 value sets): the alignment written and the log (coordinates, length, score, counts) must be those of the library aligner configured the same way (substitution matrix unless --match or --mismatch is given). " + "bounded-exhaustive enumeration of align.NewPwAligner(s1,s2,ALIGN_ALGO_SW) with SetGapOpenScore/SetGapExtendScore always set (and SetScore in match/mismatch mode), then Alignment(); all pairs of length 1..6 over {A,C} also under 3 schemes with penalties beyond the defaults (30/-30/-12/-11, 20/-20/-25/-15, 30/-10/-11/-10.5) and the 8 non-binary schemes configured in the three setter orders (open-extend-scores, extend-open-scores, scores-extend-open); " +
+		Rule: "(Free-running complement under the race detector: 8 goroutines doing this property's operations on objects of their own must get the values the same work gives alone.) Command line: goalign sw on 8 pairs (nucleotide, protein, mixed case) with every subset of --match, --mismatch, --gap-open, --gap-extend given (4 value sets): the alignment written and the log (coordinates, length, score, counts) must be those of the library aligner configured the same way (substitution matrix unless --match or --mismatch is given). " + "bounded-exhaustive enumeration of align.NewPwAligner(s1,s2,ALIGN_ALGO_SW) with SetGapOpenScore/SetGapExtendScore always set (and SetScore in match/mismatch mode), then Alignment(); all pairs of length 1..6 over {A,C} also under 3 schemes with penalties beyond the defaults (30/-30/-12/-11, 20/-20/-25/-15, 30/-10/-11/-10.5) and the 8 non-binary schemes configured in the three setter orders (open-extend-scores, extend-open-scores, scores-extend-open); " +
 			"on every case: rows (Seq1Ali/Seq2Ali and the returned Alignment) of equal length, no all-gap column, de-gapped rows = s[start..end] (0-based inclusive; an empty alignment has end = start-1), " +
 			"matches+mismatches+gaps = Length() = row length, gap count = gap columns, match/mismatch counts = identical/different residue pairs, inputs unchanged, no error, no panic; " +
 			"when the oracle optimum is > 0: MaxScore() = score of the returned rows (gap of length k costs open+(k-1)*extend) and MaxScore() = optimum of an independent three-state Gotoh local dynamic program, " +
@@ -859,6 +859,8 @@ func init() {
 			"match/mismatch counts are compared only when every identical pair scores > 0 and every different pair <= 0 under the scheme",
 			"Alignment() is called once per aligner",
 		},
+		// free-running complement: goroutines that each own their objects must get what they get alone (harness/racepass)
+		Post:  func(m *mc.Master) { m.RacePass("own-sw") },
 		Tasks: func(tier string) []mc.Task { return append(c09Tasks(tier), c09CLITasks()...) },
 		Replay: func(c *mc.Ctx, payload json.RawMessage) {
 			if c09CLIReplay(c, payload) {
